@@ -113,7 +113,7 @@ Alphabet ==
           d \in Dirs, te \in TypeEncs, m \in Methods}
   \cup {Cmd("Edit", d, U, U, U, U, U, sh, U) : d \in Dirs, sh \in Shardings}
   \cup {CmdSlices(d, code) : d \in Dirs, code \in Codes}
-  \cup {Cmd("HandInfo", d, U, U, U, U, U, sh, U) : d \in Dirs, sh \in Shardings}
+  \cup {Cmd("HandInfo", d, U, U, U, U, U, "nosh", U) : d \in Dirs}   \* sharding: by Edit of the info
 
 \* ---- directory states ----------------------------------------------------
 NoInfo == [type |-> U, enc |-> U, n |-> 0, sh |-> U]
